@@ -9,21 +9,6 @@ re-checked by the kernel against what the code says now.
 namespace C17
 open C17Tables
 
-/-- the table the doc-string of `convert_dssp_to_martini` describes -/
-def documentedSsCg : List (Char × Char) :=
-  [('1', 'H'), ('2', 'H'), ('3', 'H'), ('H', 'H'), ('G', 'H'), ('I', 'H'),
-   ('B', 'E'), ('E', 'E'), ('T', 'T'), ('S', 'S'), ('C', 'C')]
-
-def hRun (n : Nat) : List Char := List.replicate n 'H'
-
-/-- the helix pattern table the doc-string describes: isolated runs of 1..7, then start and end
-of longer runs -/
-def documentedPatterns : List (List Char × List Char) :=
-  ((List.range 7).map fun i => ('.' :: hRun (i + 1) ++ ['.'], '.' :: specRun (i + 1) ++ ['.']))
-  ++ [('.' :: hRun 4, '.' :: List.replicate 4 '1'), (hRun 4 ++ ['.'], List.replicate 4 '2' ++ ['.'])]
-
-def countH (s : List Char) : Nat := s.count 'H'
-
 /-- every replacement has the length of its pattern -/
 theorem patterns_length_preserving : ∀ p ∈ patterns, p.2.length = p.1.length := by decide
 
